@@ -104,7 +104,7 @@ fn page_through(reader: &IndexReader, base: &Value, spec: &Value, p: usize, all:
 fn main() {
   let args: Vec<String> = std::env::args().skip(1).collect();
   let mut ctx = Ctx::from_args("C30", "exploration", &args);
-  ctx.rule = "per case: a seeded corpus (20-150 documents; multi-valued / missing keyword and numeric fields, negative values around zero, keys that are prefixes of one another) indexed in-memory under a random commit layout (mostly several segments, some with deletes / compaction); per request a composite aggregation with 1-3 uniquely named terms / histogram sources, optional metric sub-aggregations, over match_all / term query / filter. The unpaged response (size 10000) is compared with the independent composite oracle, then the aggregation is paged with every page size 1..5 by feeding after_key back as after. evaluations = unpaged oracle comparisons + (request, page size) paging runs. A (request, page size) run is non-trivial (counted once by hash) when the unpaged response has more buckets than the page size, i.e. at least two pages are needed.".into();
+  ctx.rule = "per case: a seeded corpus (20-150 documents; multi-valued / missing keyword and numeric fields, negative values around zero, keys that are prefixes of one another) indexed in-memory under a random commit layout (mostly several segments, some with deletes / compaction); per request a composite aggregation with 1-3 uniquely named terms / histogram sources, optional metric sub-aggregations, over match_all / term query / filter. The unpaged response (size 10000) is compared with the independent composite oracle, then the aggregation is paged with page sizes from 1..5 (all five when the unpaged response has <= 40 buckets, two seeded ones otherwise) by feeding after_key back as after. evaluations = unpaged oracle comparisons + (request, page size) paging runs. A (request, page size) run is non-trivial (counted once by hash) when the unpaged response has more buckets than the page size, i.e. at least two pages are needed.".into();
   ctx.assumptions = vec![
     "buckets are ordered by source values in source order (strings bytewise, numbers numerically); documents lacking a value for any source are skipped (the behaviour the oracle of C12 encodes)".into(),
     "the reader is not refreshed between pages (one snapshot)".into(),
@@ -112,7 +112,7 @@ fn main() {
     "histogram sources over i64 fields return no buckets at all (finding recorded under C12 and here); paging over the empty result is still exercised".into(),
   ];
   let quick = ctx.quick();
-  let n = ctx.n(100, 2000);
+  let n = ctx.n(100, 1200);
   ctx.run_cases("paging", n, |rng: &mut Rng, l: &mut Local, scratch: &std::path::PathBuf| {
     let ndocs = rng.urange(20, 150);
     let docs = aggs::gen_corpus(rng, ndocs);
@@ -149,7 +149,7 @@ fn main() {
     }
     l.count(&format!("layout[{}]", plan.name), 1);
     l.count("commits_total", plan.commits.len() as u64);
-    let nreq = if quick { 10 } else { 20 };
+    let nreq = if quick { 8 } else { 16 };
     for _ in 0..nreq {
       let (q, f) = aggs::gen_query(rng);
       let i64_hist = rng.chance(0.15);
@@ -213,7 +213,17 @@ fn main() {
           "unpaged_keys": all.iter().take(10).map(|b| b["key"].clone()).collect::<Vec<_>>(), "unpaged_buckets": all.len()}));
       }
       // 2. paging
-      for p in 1..=5usize {
+      // every page size on small results; two seeded sizes on large ones (each page is a full search)
+      let sizes: Vec<usize> = if all.len() <= 40 {
+        (1..=5).collect()
+      } else {
+        let lo = if all.len() <= 120 { 1 } else { 2 };
+        let mut v: Vec<usize> = (lo..=5).collect();
+        rng.shuffle(&mut v);
+        v.truncate(2);
+        v
+      };
+      for p in sizes {
         let mut trace = Vec::new();
         let out = page_through(&reader, &base, &spec, p, &all, &mut trace);
         l.eval();
